@@ -18,7 +18,7 @@ const OPS: &[&str] = &["array_int", "array_float", "array_bool", "array_obj",
                        "vec_fill", "vec_fill_float", "vec_fill_bool", "vec_fill_obj",
                        "manual_alloc", "manual_reuse", "bytes_alloc",
                        "string_repeat", "string_repeat_mb", "pad_left", "pad_right", "pad_left_mb", "pad_right_mb",
-                       "replace_sq", "join_sq", "str_literal", "churn", "churn_mix", "churn_over", "bytes_many", "bytes_clone", "bytes_resize", "bytes_cycle", "bytes_from_string",
+                       "replace_sq", "join_sq", "str_literal", "churn", "churn_mix", "churn_over", "bytes_many", "bytes_clone", "bytes_resize", "bytes_cycle", "bytes_from_string", "fs_read_bytes",
                        "concat_double", "vec_new_lit", "closures"];
 
 /// (prelude, operation input).  The operation input is the same text for every size: the size is the
@@ -61,6 +61,8 @@ fn program(op: &str, n: i128, limit: u64) -> Option<(String, String)> {
         "bytes_alloc" => "needs std.bytes\nlet b = bytes.alloc(n)\nused = bytes.size(b)\nused\n",
         // byte buffers are data the program holds: n buffers of 64 KiB kept; a buffer and two clones; a small buffer resized to n;
         // alloc / free n times (nothing may accumulate); two buffers made from a string of 16 n bytes
+        // fs.read_bytes(f, n) on a 13-byte file: the buffer of n bytes is a byte buffer -- checked against the limit before it is built
+        "fs_read_bytes" => "needs std.fs as fs\nneeds std.bytes as by\nlet f = fs.open(\"/tmp/hx_c10_small.txt\", \"r\")\nlet b = fs.read_bytes(f, n)\nused = by.size(b)\nfs.close(f)\nused\n",
         "bytes_many" => "needs std.bytes\nlet mut i = 0\nlet mut t = 0\nwhile i < n {\n  let h = bytes.alloc(65536)\n  t = t + bytes.size(h)\n  i = i + 1\n}\nused = t\nused\n",
         "bytes_clone" => "needs std.bytes\nlet b = bytes.alloc(n)\nlet c = bytes.clone(b)\nlet d = bytes.clone(c)\nused = bytes.size(b) + bytes.size(c) + bytes.size(d)\nused\n",
         "bytes_resize" => "needs std.bytes\nlet b = bytes.alloc(1000)\nbytes.resize(b, n)\nused = bytes.size(b)\nused\n",
@@ -148,7 +150,16 @@ fn child() {
     unsafe { setrlimit(RLIMIT_AS, &lim); }
     quiet_panics();
     let (pre, body) = match program(&op, size, limit) { Some(x) => x, None => { println!("RESULT 9 0 0 0 0 unknown-op"); return; } };
-    let cfg = match aelys_runtime::VmConfig::new(limit) { Ok(c) => c, Err(e) => { println!("RESULT 9 0 0 0 0 config:{}", e); return; } };
+    let mut cfg = match aelys_runtime::VmConfig::new(limit) { Ok(c) => c, Err(e) => { println!("RESULT 9 0 0 0 0 config:{}", e); return; } };
+    if op.starts_with("fs_") {
+        cfg.capabilities.allow_fs = true;
+        // children run in parallel: create the file atomically, and only when it is not there yet
+        if std::fs::metadata("/tmp/hx_c10_small.txt").map(|m| m.len() != 13).unwrap_or(true) {
+            let tmp = format!("/tmp/hx_c10_small.txt.{}", std::process::id());
+            let _ = std::fs::write(&tmp, b"thirteen byte");
+            let _ = std::fs::rename(&tmp, "/tmp/hx_c10_small.txt");
+        }
+    }
     let mut vm = match aelys_driver::new_vm_with_config(cfg, Vec::new()) { Ok(v) => v, Err(e) => { println!("RESULT 9 0 0 0 0 newvm:{}", esc(&format!("{}", e))); return; } };
     let r0 = run_on_vm(&mut vm, &pre, opt, 50_000_000);
     if r0.class != "ok" { println!("RESULT 9 0 0 0 0 prelude:{}:{}", r0.class, esc(&r0.detail)); return; }
@@ -271,6 +282,11 @@ fn sizes_for(op: &str, limit: u64, rng: &mut Rng, random: bool) -> Vec<i128> {
     if op == "bytes_many" || op == "bytes_cycle" {
         let q = l / 65536;
         return if random { vec![rng.range_i64(0, (2 * q + 8) as i64) as i128] } else { vec![-1, 0, 1, 2, q / 2, q - 2, q - 1, q, q + 1, 2 * q, 200] };
+    }
+    if op == "fs_read_bytes" {
+        // up to the module's own cap of 16 MiB; above the limit the request must be refused before the buffer exists
+        return if random { vec![if rng.chance(1, 2) { rng.range_i64(0, 16_777_216) } else { rng.range_i64(0, (l + 200_000) as i64) } as i128] }
+               else { vec![0, 1, 5, 13, 14, 1000, 70_000, l / 2, l - 200_000, l - 1, l, l + 1, 2 * l, 16_000_000, 16_777_216] };
     }
     if op == "bytes_clone" || op == "bytes_resize" || op == "bytes_from_string" {
         let u: i128 = if op == "bytes_from_string" { 16 } else { 1 };
@@ -460,7 +476,7 @@ fn coq_op(op: &str) -> String {
         "vec_fill" | "vec_fill_float" | "vec_fill_obj" => "OVecFill 8".into(), "vec_fill_bool" => "OVecFill 1".into(),
         "manual_alloc" => "OManual".into(), "manual_reuse" => "OManualReuse".into(),
         "bytes_alloc" => "OBytes".into(), "bytes_many" => "OBytesMany 65536".into(), "bytes_clone" => "OBytesClone".into(), "bytes_resize" => "OBytesResize 1000".into(),
-        "bytes_cycle" => "OBytesCycle 65536".into(), "string_repeat" => "ORepeat 16".into(), "string_repeat_mb" => "ORepeat 6".into(),
+        "bytes_cycle" => "OBytesCycle 65536".into(), "fs_read_bytes" => "OFsRead 13".into(), "string_repeat" => "ORepeat 16".into(), "string_repeat_mb" => "ORepeat 6".into(),
         "pad_left" | "pad_right" => "OPad 16 16 1".into(), "pad_left_mb" | "pad_right_mb" => "OPad 16 16 3".into(),
         "str_literal" => "OLiteral".into(), "churn" => "OChurn".into(), "churn_mix" => "OChurnMix".into(), "churn_over" => "OChurnOver".into(),
         "replace_sq" => "OProductSq 1".into(), "join_sq" => "OProductSq 2".into(),
